@@ -6,7 +6,9 @@ export CARGO_NET_OFFLINE=true
 mkdir -p .build evidence replays
 python3 tools/gen.py /repo/src || exit 1
 tools/mkproject.sh || exit 1
-( cd coq && timeout 7000 make -j16 ) || exit 1
+# build exactly the cones of the claimed properties (theorems and correspondence definitions)
+targets=$(python3 -c "import json; print(' '.join('Props/%s.vo Check/%s.vo' % (c['property_id'], c['property_id']) for c in json.load(open('MANIFEST.json'))['checks']))")
+( cd coq && timeout 7000 make -j16 $targets ) || exit 1
 [ -f harness/Cargo.lock ] || cp /repo/Cargo.lock harness/Cargo.lock
 for v in native_dev native_release portable_dev portable_release; do
   case $v in native_*) flags="-C target-cpu=native";; *) flags="";; esac
